@@ -596,6 +596,13 @@ func (a *Analysis) nonNil0(v ssa.Value, at ssa.Instruction, depth int) (bool, st
 			if ok, why := a.Facts.NonNil(v, at); ok {
 				return true, why
 			}
+			// a value read from a listener field is what the field held when it was read, whatever is stored there later
+			// (declared := l.current; l.current = nil; declared.use())
+			if ld, isLoad := v.(*ssa.UnOp); isLoad && ld.Op == token.MUL && ld.Parent() == at.Parent() && ssa.Instruction(ld) != at {
+				if ok, why := a.Facts.NonNil(v, ld); ok {
+					return true, why
+				}
+			}
 		}
 		// an expression rooted at a helper's parameter: judged at every call of the helper
 		if ok, why := a.callerFacts(v, at, depth); ok {
